@@ -212,3 +212,53 @@ Theorem C13_dichotomy_along_known_paths :
   scan_out L (vm_find e p L vfuel rtl start prevlen) (vm_find e p (-1) vfuel rtl start prevlen).
 Proof. intros e p Htc Hw L w0 vfuel rtl start prevlen. exact (lim_find e p Htc Hw L w0 vfuel rtl start prevlen). Qed.
 Print Assumptions C13_dichotomy_along_known_paths.
+
+(* ---- the dichotomy WITHOUT a control-flow hypothesis, for every program the static verifier accepts ----
+   CompileCfSafe.tyck_auto p is a decidable check of the program alone (a bytecode verifier: a shape of the
+   grouping stack for every instruction boundary, every instruction consistent with it).  Its soundness
+   (cf_sound: a frame-typing invariant preserved by every opcode in the three modes Forward / Back / Back2)
+   gives control-flow safety of every run from a fresh state, hence, with the capacity argument above:
+   under any limit the scan is ErrBacktrackingStackLimit or agrees with the unlimited scan in every outcome.
+   Every input, every fuel, no compile_correct.  For compiled programs the weight hypothesis is the theorem
+   C13_compiled_push_weight.  Leg c01-frag: the verifier accepts 100% of the real programs of the corpus
+   (full and quick); that it accepts EVERY program the writer emits is not proved here. *)
+From Verif Require Import Proofs.CompileCfSafe Proofs.CompileTyped.
+
+Theorem C13_limit_dichotomy_typed :
+  forall e p L fuel rtl start prevlen,
+    cp_need (codes p) 0 <= trackcount p * G_ensure_factor ->
+    tyck_auto p = true ->
+    let r1 := vm_find e p L fuel rtl start prevlen in
+    let r2 := vm_find e p (-1) fuel rtl start prevlen in
+    r1 = Err E_StackLimit \/
+    match r1, r2 with
+    | Ok a, Ok b => same_result a b
+    | Err c, Err c' => c = c'
+    | Crash w, Crash w' => w = w'
+    | Fuel, Fuel => True
+    | _, _ => False
+    end.
+Proof. exact typed_limit_dichotomy. Qed.
+Print Assumptions C13_limit_dichotomy_typed.
+
+Theorem C13_limit_dichotomy_compiled_typed :
+  forall c root strs cs e L fuel rtl start prevlen,
+  let code := fst (compile c root) in
+  let p := {| codes := code; strings := strs; trackcount := track_count code; capsize := cs |} in
+  tyck_auto p = true ->
+  let r1 := vm_find e p L fuel rtl start prevlen in
+  let r2 := vm_find e p (-1) fuel rtl start prevlen in
+  r1 = Err E_StackLimit \/
+  match r1, r2 with
+  | Ok a, Ok b => same_result a b
+  | Err c, Err c' => c = c'
+  | Crash w, Crash w' => w = w'
+  | Fuel, Fuel => True
+  | _, _ => False
+  end.
+Proof. exact typed_limit_dichotomy_compiled. Qed.
+Print Assumptions C13_limit_dichotomy_compiled_typed.
+
+(* the non-vacuity program of this file is accepted by the verifier *)
+Example C13_witness_typed : tyck_auto c13_prog = true.
+Proof. vm_compute. reflexivity. Qed.
